@@ -140,6 +140,8 @@ def build(pid: str, modules: list[str], theorems: list[str], tier: str = "quick"
 class Ctx:
     def __init__(self, pid: str, tier: str, seed: int):
         self.pid, self.tier, self.seed = pid, tier, seed
+        if tier != "quick":
+            self.CASE_CPU_BUDGET = 3600.0
         self.t0 = time.time()
         self.evaluations = 0
         self.keys: set[str] = set()
@@ -164,7 +166,10 @@ class Ctx:
     def rng(self, *salt):
         return common.rng(self.pid, *salt)
 
-    CASE_CPU_BUDGET = 90.0   # seconds of CPU of this process between two cases (the slowest case on the unchanged tree: ~15 s)
+    # seconds of CPU of this process between two calls of case(). Harness-side work (generating reference streams, waiting for
+    # the model driver) also runs between two cases, so the budget is a multiple of what a WHOLE check uses on the unchanged
+    # tree: quick checks use 5..60 s of CPU in total, thorough ones up to ~15 min
+    CASE_CPU_BUDGET = 240.0
 
     def case(self, key: object, nontrivial: bool = True, sample=None):
         # every case re-arms a CPU-time budget: code under test that spins for ever (or for minutes) inside one case is
